@@ -6,5 +6,5 @@ git diff --quiet || { echo "/repo is dirty"; exit 2; }
 git apply "$D/patch.diff" || { echo "patch does not apply"; exit 2; }
 echo "--- pinned tests:"; /venv/bin/python -m pytest -q -p no:cacheprovider --timeout=900 --continue-on-collection-errors 2>&1 | tail -1
 if [ -f "$D/demo.py" ]; then echo "--- demo (changed):"; (cd /tmp && timeout 300 /venv/bin/python "$D/demo.py" 2>&1 | tail -3; echo "demo exit=$?"); fi
-for id in "$@"; do echo "--- check $id:"; (cd /verif && timeout 2400 ./check $id 2>&1 | grep -E "VIOLATION|KNOWN|^C[0-9]+ |INFRA|TIMEOUT" | head -6); done
+for id in "$@"; do echo "--- check $id:"; (cd /verif && timeout 2400 ./check $id 2>&1 | grep -E "VIOLATION|^C[0-9]+ |INFRA|TIMEOUT" | head -6); done
 git -C /repo checkout -- . ; git -C /repo status --short | head -3
